@@ -331,7 +331,7 @@ def _get_desc_filter(w: ZorgQueryParser.Desc_filterContext) -> DescFilter:
 def _get_property_filter(
     w: ZorgQueryParser.Prop_filterContext,
 ) -> PropertyFilter:
-    key, op_value = w.getText().split(":")
+    key, op_value = w.getText().split(":", maxsplit=1)
     negated = False
     if key[0] == "!":
         negated = True
